@@ -47,6 +47,7 @@ type StampUpstream struct {
 	// Behaviour switches for failure-matrix checks.
 	Gone    atomic.Bool // Dial reports upstream.ErrGone
 	Refuse  atomic.Bool // Dial fails
+	Early   atomic.Bool // closes the connection after reading the request
 	Handler http.Handler
 }
 
@@ -89,6 +90,9 @@ func (u *StampUpstream) serve(c net.Conn) {
 			return
 		}
 		u.Served.Add(1)
+		if u.Early.Load() {
+			return
+		}
 		rw := &pipeResponse{h: http.Header{}, c: c, req: req}
 		rw.h.Set("X-Stamp-Endpoint", u.Endpoint)
 		rw.h.Set("X-Stamp-Upstream", u.Name)
